@@ -63,6 +63,55 @@ def ops_of(pid):
                 out.append((ty, op, args, spec is not None))
     return out
 
+_SRC = {}
+def source_constants(ty):
+    """every integer literal (hex or decimal, `_` separators) in the source files of posit type `ty` (its module, the shared
+    conversion file and — for p32 — the elementary functions): thresholds, masks and table entries as the CURRENT source has
+    them, so a changed threshold brings its own neighbourhood into the streams.  Returns a sorted list of ints."""
+    import re, glob
+    if ty in _SRC: return _SRC[ty]
+    mod = TYPES[ty]['mod']
+    files = glob.glob(os.path.join(core.REPO, 'src', mod, '**', '*.rs'), recursive=True) + [os.path.join(core.REPO, 'src', mod + '.rs'),
+            os.path.join(core.REPO, 'src', 'convert.rs'), os.path.join(core.REPO, 'src', 'macros.rs'), os.path.join(core.REPO, 'src', 'lib.rs')]
+    vals = set()
+    for fn in files:
+        try: txt = open(fn).read()
+        except OSError: continue
+        txt = re.sub(r'//[^\n]*', '', txt)
+        for m in re.finditer(r'(?<![\w.])(-?)\s*(0x[0-9a-fA-F_]+|\d[\d_]*)(?:_?[iu](?:8|16|32|64|128|size))?(?![\w.])', txt):
+            t = m.group(2).replace('_', '')
+            try: v = int(t, 16) if t.lower().startswith('0x') else int(t)
+            except ValueError: continue
+            if v > 64: vals.add(v)
+    _SRC[ty] = sorted(vals)
+    return _SRC[ty]
+
+def constant_cases(ty, n, args, op, rng, limit=1200):
+    """neighbourhoods (+-2) of the source's own constants, read as operands of the argument kind (posit patterns and their negations,
+    raw float bits, integers), for unary operations; for binary posit operations the constant is paired with special values"""
+    args = list(args)
+    cs = source_constants(ty)
+    out = []
+    def around(v, w):
+        M = (1 << w) - 1
+        return [((v + d) & M) for d in (-2, -1, 0, 1, 2)] + [((-(v + d)) & M) for d in (-1, 0, 1)]
+    if len(args) == 1:
+        k = args[0]
+        w = n if k == 'P' else (TYPES[k]['n'] if k in TYPES else {'f32': 32, 'f64': 64, 'i8': 8, 'u8': 8, 'i16': 16, 'u16': 16, 'i32': 32, 'u32': 32, 'i64': 64, 'u64': 64, 'isize': 64, 'usize': 64}.get(k))
+        if w is None: return []
+        sel = [v for v in cs if v < (1 << w)]
+        if k in ('f32', 'f64'): sel = [v for v in sel if v >= (1 << (w - 12))]      # plausible float bit patterns only
+        if len(sel) > limit: sel = rng.sample(sel, limit)
+        for v in sel: out += [(x,) for x in around(v, w)]
+    elif args == ['P', 'P']:
+        sel = [v for v in cs if v < (1 << n)]
+        if len(sel) > limit // 8: sel = rng.sample(sel, limit // 8)
+        sp = [1, (1 << (n - 2)), (1 << (n - 1)) - 1, (1 << (n - 1)) + 1, (1 << n) - 1]
+        for v in sel:
+            for x in around(v, n)[:5]:
+                for y in sp: out += [(x, y), (y, x)]
+    return out
+
 BUDGET = {'quick': {1: 30000, 2: 40000, 3: 60000}, 'thorough': {1: 300000, 2: 600000, 3: 900000}}
 
 def streams(pid, tier, rng, scale=1):
@@ -70,15 +119,19 @@ def streams(pid, tier, rng, scale=1):
     for (ty, op, args, has_spec) in ops_of(pid):
         n = TYPES[ty]['n']
         cnt = BUDGET[tier][len(list(args))] * scale
+        if pid in ('C16', 'C17') and tier == 'thorough': cnt = cnt // 3
         if pid == 'C16': cnt = cnt // 8
         if pid == 'C17': cnt = cnt // 4
         # spelling / totality passes reuse the generators of the owning property; cap them per operation (the owning check runs them in full)
         cap = {'C17': 20000, 'C16': 20000}.get(pid)
+        if cap and tier == 'thorough': cap *= 3
         gen_ = cases_for(ty, n, args, cnt, rng, TYPES, op=op)
         if cap:
             allv = list(gen_)
             gen_ = allv if len(allv) <= cap * scale else rng.sample(allv, cap * scale)
-        for vals in gen_:
+        import itertools as _it
+        extra_ = constant_cases(ty, n, args, op, rng, limit=(300 if cap else 1200)) if pid != 'C10' else []
+        for vals in _it.chain(gen_, extra_):
             if op == 'clamp':
                 sg = lambda v: v - (1 << n) if v >> (n - 1) else v
                 if sg(vals[1]) > sg(vals[2]): continue      # documented precondition (asserted): min <= max
@@ -255,7 +308,7 @@ def trig_worst_cases(count):
 def extra_streams(pid, tier, rng, scale):
     from .gen_inputs import interesting_posits
     lines = []
-    big = 10 if tier == 'thorough' else 1
+    big = (3 if pid in ('C16', 'C17') else 10) if tier == 'thorough' else 1   # C16/C17 are unions of all families: keep the thorough tier under an hour
     if pid in ('C04', 'C12', 'C16', 'C17'):
         cnt = {'C04': 30000, 'C12': 15000, 'C16': 4000, 'C17': 4000}[pid] * scale * big
         for qt in QT:
